@@ -283,6 +283,13 @@ func runSolver(ctx context.Context, cfg SolverCfg, file string, timeoutS int) (s
 		args = append(args, fmt.Sprintf("--tlimit=%d", timeoutS*1000))
 	}
 	args = append(args, file)
+	// at most one running solver per core: a solver's time limit then measures its own work, not the load of the race
+	select {
+	case solverSlots <- struct{}{}:
+		defer func() { <-solverSlots }()
+	case <-ctx.Done():
+		return "unknown", "cancelled"
+	}
 	cmd := exec.CommandContext(ctx, cfg.Args[0], args...)
 	var buf bytes.Buffer
 	cmd.Stdout = &buf
